@@ -222,7 +222,12 @@ class StatementInserter(ast.NodeTransformer, EmitterMixin):
         else:
             function_guard = None
         docstring: List[ast.AST] = []
-        if len(fundef_copy_body) > 0 and _is_docstring_expr(fundef_copy_body[0]):
+        # only the very first statement of the body is a docstring (a string after a declaration is not)
+        if (
+            len(fundef_copy_body) > 0
+            and fundef_copy_body[0] is fundef_copy.body[0]
+            and _is_docstring_expr(fundef_copy_body[0])
+        ):
             orig_body.pop(0)
             docstring = [fundef_copy_body.pop(0)]
         if len(orig_body) == 0:
@@ -385,9 +390,9 @@ class StatementInserter(ast.NodeTransformer, EmitterMixin):
     ) -> bool:
         if field_name != "body":
             return False
-        if isinstance(node, (ast.FunctionDef, ast.AsyncFunctionDef)):
-            body, _ = strip_globals_and_nonlocals(node.body)
-        elif isinstance(node, (ast.ClassDef, ast.Module)):
+        if isinstance(
+            node, (ast.FunctionDef, ast.AsyncFunctionDef, ast.ClassDef, ast.Module)
+        ):
             body = node.body
         else:
             return False
